@@ -46,9 +46,9 @@ func CreateAVCDecConfRec(spsNalus [][]byte, ppsNalus [][]byte, includePS bool) (
 		AVCLevelIndication:   byte(sps.Level),
 		SPSnalus:             nil,
 		PPSnalus:             nil,
-		ChromaFormat:         1,
-		BitDepthLumaMinus1:   0,
-		BitDepthChromaMinus1: 0,
+		ChromaFormat:         sps.ChromaFormatIDC,
+		BitDepthLumaMinus1:   byte(sps.BitDepthLumaMinus8),
+		BitDepthChromaMinus1: byte(sps.BitDepthChromaMinus8),
 		NumSPSExt:            0,
 		NoTrailingInfo:       false,
 	}
